@@ -61,6 +61,20 @@ Theorem C13_brier_complementary_gt_le : forall fair t ms o,
 Proof. exact (brier_complementary OpGt). Qed.
 Print Assumptions C13_brier_complementary_gt_le.
 
+(* the same at the level of the whole per-case array (every forecast case x threshold cell), and the array of the
+   regenerated-formula model agrees cell by cell with the specification array used by the check's property predicate *)
+Theorem C13_brier_array_complementary : forall fcst obs ens tdim ts op fair e,
+  lget (brier_ens_pointwise brier_ens_case fcst obs ens tdim ts (compl op) fair) e =x=
+  lget (brier_ens_pointwise brier_ens_case fcst obs ens tdim ts op fair) e.
+Proof. exact brier_pointwise_complementary. Qed.
+Print Assumptions C13_brier_array_complementary.
+
+Theorem C13_brier_array_spec : forall fcst obs ens tdim ts op fair e,
+  lget (brier_ens_pointwise brier_ens_case fcst obs ens tdim ts op fair) e =x=
+  lget (brier_ens_pointwise brier_ens_spec fcst obs ens tdim ts op fair) e.
+Proof. exact brier_pointwise_spec. Qed.
+Print Assumptions C13_brier_array_spec.
+
 (* brier_is_mse_on_valid_inputs: with checking on, brier_score IS the MSE model when every non-NaN forecast
    lies in [0,1] and every non-NaN observation is 0 or 1, and raises ValueError otherwise; the regenerated
    squared-error kernel is (f - o)^2 *)
